@@ -155,7 +155,12 @@ def string_to_number(text: str) -> Union[int, float]:
         n = int(s)
         if n == 0 and s[0] == "-":
             return -0.0
-        return n if abs(n) <= 9007199254740992 else float(n)
+        if abs(n) <= 9007199254740992:
+            return n
+        try:
+            return float(n)
+        except OverflowError:
+            return float("inf") if n > 0 else float("-inf")
     return float(s)
 
 
